@@ -23,7 +23,7 @@ RULE = ("For each of the exported optimizer classes Hypothesis draws parameter d
         "case.")
 ASSUMPTIONS = ["the config class of an optimizer is <Optimizer>Config as frozen in baselines/fixture_configs.json",
                "a run that raises must raise alike on both sides (its cause is C06's business)"]
-BUDGET = {"quick": 60, "thorough": 500}
+BUDGET = {"quick": 80, "thorough": 500}
 RUNS_EVERY = 2
 
 
